@@ -55,6 +55,9 @@ def prepare(run, debug=False):
 
 MORE_PROPS = {"theories/props/C15.v": ["theories/props/C15_state.v"],
               "theories/props/C05.v": ["theories/props/C05_leaves.v"],
+              "theories/props/C14.v": ["theories/props/C14_roundtrip.v"],
+              "theories/props/C02.v": ["theories/props/C14_roundtrip.v"],
+              "theories/props/C03.v": ["theories/props/C14_roundtrip.v", "theories/props/C03_shapes.v"],
               "theories/props/C01.v": ["theories/props/C01_depth.v"],
               "theories/props/C16.v": ["theories/props/C16_errors.v"]}
 
@@ -316,6 +319,7 @@ def long_number_candidates(rng, n):
         if rng.random() < 0.3:
             s_ += "i"
         out.append(s_)
+    out += ["1\u0663", "12\u0663\u0664", "4\uff12", "0\U0001D7CE", "1.\u0663", "1e\u0663", "0x\uff11", "7\u0667\n", "\u0663", "1_\u0663"]
     out += ["0x15e", "0xBadFace", "0XE", "0xdead_beef", "0x1e+2", "0x1p-2", "0xep1", "0x.ep1", "1e5", "0e0", "0777", "0o7_7", "0b1_0",
             "1_000.000_1e+1_0", "0x_1F", "0_7", "09.5", "09e1", "089i", "0x1P1i", "1__0", "1_", "0x1.p1", "0x1.8p", ".5e-3i"]
     return out
@@ -643,7 +647,7 @@ check_c06 = parser_check(
     "generated valid programs, 1-3 token deletions/insertions/duplications/swaps/replacements of them, token soup; for every ACCEPTED "
     "input the scanner's token dump (hook) is compared with the leaves of the returned tree (same text, same offset, each once, in order), "
     "the bracket tokens must nest and the first token must be `package`; non-trivial = accepted inputs",
-    fam_valid_mut_soup(200, 6, 1500, styles=("random", "dense")), nontrivial=accepted)
+    lambda run: fam_valid_mut_soup(200, 6, 1500, styles=("random", "dense"))(run) + pfam.text_mutants(), nontrivial=accepted)
 
 check_c11 = parser_check(
     "C11", "theories/props/C11.v", "comments", oracle_comments,
@@ -703,6 +707,8 @@ def lex_check(prop, props_file, gen_targets, families, what, rule, exhaustive):
         impl, mod, toks = fam.exec(cases, mode="tokens")
         fam.judge(cases, impl, mod, toks, "full", oracle_tokens, what,
                   nontrivial=lambda c, l: " | EOF" in l or l.startswith("| EOF"))
+        if prop == "C08":
+            c08_trees(run, fam)
         run.cov["rule"] = rule
         run.cov["exhaustive"] = exhaustive
         run.cov["samples"] = [c.src for c in cases[:: max(1, len(cases) // 6)]][:6]
@@ -733,13 +739,41 @@ check_c07 = lex_check(
     "line: offsets, kinds, texts, end, line table) and judged by an independent spec lexer (tools/pfam.py spec_lex): same kinds and texts, "
     "every token text is the source text at its offset; non-trivial = inputs the crate scans to the end" % len(pfam.REPR_TOKENS), True)
 
-check_c08 = lex_check(
+def check_c08(run, replay):
+    base = _check_c08_tokens
+    rc = base(run, replay)
+    return rc
+
+
+def c08_trees(run, fam):
+    """the last clause of the property: newline rendering and explicit-semicolon rendering give the same tree"""
+    progs, hit, labels = pfam.gen_programs(seed_of(run) + 3, budget(run, 250, 2000))
+    cases = pfam.valid_cases(progs, ("semicolons", "newlines", "random"))
+    impl, mod, toks = fam.exec(cases, mode="parse")
+    ref = {c.prog: pfam.proj_shape(l) for c, l in zip(cases, impl) if c.style == "semicolons"}
+    fam.judge(cases, impl, mod, toks, "shape",
+              lambda c, l, t: None if pfam.proj_shape(l) == ref[c.prog] else
+              "the rendering with newlines (%s) and the one with explicit semicolons give different results: %s vs %s" % (
+                  c.style, pfam.proj_shape(l)[:50], ref[c.prog][:50]),
+              "newline rendering == explicit-semicolon rendering (trees)")
+    inj = pfam.layout_injection_cases()
+    impl_i, mod_i, toks_i = fam.exec(inj, mode="parse")
+    ref_i = {c.prog: pfam.proj_shape(l) for c, l in zip(inj, impl_i) if c.family == "F-layout-base"}
+    fam.judge(inj, impl_i, mod_i, toks_i, "shape",
+              lambda c, l, t: None if pfam.proj_shape(l) == ref_i[c.prog] else
+              "a line break where the spec inserts no semicolon changes the result: %s vs %s" % (ref_i[c.prog][:50], pfam.proj_shape(l)[:50]),
+              "line breaks in every gap of directed snippets")
+
+
+_check_c08_tokens = lex_check(
     "C08", "theories/props/C08.v", ["gen/GenTrigger.vo", "gen/GenClasses.vo"], fam_semi,
     "a semicolon is synthesised exactly where the spec's rule says",
     "exhaustive: every token kind (48 operators, 25 keywords, 7 literal forms) x %d line-ending contexts (newline, CRLF, end of input, "
     "blanks+newline, line comment, general comment then newline, general comment spanning a newline, general comment then another token, "
     "two comments, comment+line comment, token) plus generated programs rendered once with newlines and once with explicit semicolons; "
-    "crate token dump == model token dump, judged by the independent spec lexer (semicolon insertion per the spec's rule 1); "
+    "crate token dump == model token dump, judged by the independent spec lexer (semicolon insertion per the spec's rule 1); the "
+    "generated programs are also PARSED in the newline, explicit-semicolon and random renderings and directed snippets with a line "
+    "break / blank / comment in every gap that keeps the token sequence: the trees must be equal; "
     "non-trivial = inputs the crate scans to the end" % len(pfam.SEMI_CONTEXTS), True)
 
 
@@ -754,9 +788,25 @@ def oracle_errloc(c, line, tl):
     return None
 
 
+def site_corpus_cases():
+    """corpus/error_sites.json: per error site of the model the shortest input found that fails there (built by
+    tools/sitecorpus.py with the extracted model as instrumentation); each also on a later line and after
+    multi-byte text"""
+    pth = os.path.join(vlib.ROOT, "corpus", "error_sites.json")
+    if not os.path.exists(pth):
+        return []
+    out = []
+    for site, src in sorted(json.load(open(pth)).items()):
+        out.append(pfam.Case(src, "F-err-site", note=site))
+        if src.startswith("package p; "):
+            out.append(pfam.Case("package p\n\n// é日本\nvar s = `é\n日` /* c\n */\n" + src[len("package p; "):], "F-err-site", note=site))
+    return out
+
+
 def fam_err(run):
     progs, hit, labels = pfam.gen_programs(seed_of(run), budget(run, 150, 1200))
-    return pfam.damaged_cases(progs) + pfam.soup_cases(seed_of(run), budget(run, 500, 5000))
+    return pfam.damaged_cases(progs) + pfam.soup_cases(seed_of(run), budget(run, 500, 5000)) + site_corpus_cases() + \
+        [c for c in pfam.text_mutants()]
 
 
 check_c16 = parser_check(
@@ -778,7 +828,9 @@ def kf5(case, msg, line):
     """KF-5: the crate's trigger table contains `package`: with every synthetic ';' that directly follows the
     keyword package removed from the crate's stream, crate and spec tokenisation agree"""
     if "crate ('O', ';')" not in msg:
-        return False
+        # tree-level families: the input has a line end directly after the keyword package and is rejected
+        return bool(line.startswith("ERR") and
+                    re.search(r"(^|[\s;])package[ \t\r]*(/\*[^\n]*?\*/[ \t\r]*)*(//[^\n]*|/\*[^*]*\n)?\n", case.src))
     toks, rest = pfam.parse_token_line(line)
     nc = [(p, k, t) for p, k, t in toks if k != "C"]
     kept = []
@@ -833,8 +885,26 @@ def check_c02(run, replay):
         "outcome); constructs hit by a listed known finding are not generated, their witnesses are run separately; "
         "non-trivial = all (distinct renderings)",
         fam_valid_styles(250, pfam.STYLES), tokens=False,
-        extra=lambda run, fam, gv, gm: witness_findings(run, gv, lambda k, w, l: not l.startswith("OK ")))
+        extra=c02_extra)
     return base(run, replay)
+
+
+def c02_extra(run, fam, gv, gm):
+    witness_findings(run, gv, lambda k, w, l: not l.startswith("OK "))
+    gc = golden_cases()
+    for c in gc:
+        c.family = "F-valid"
+    impl_g, mod_g, _ = fam.exec(gc)
+    fam.judge(gc, impl_g, mod_g, [None] * len(gc), "outcome", oracle_accept, "directed valid programs are accepted")
+    # the same programs with a newline / blank / comment in every gap that keeps the token sequence
+    inj = [c for c in pfam.layout_injection_cases() if True]
+    for c in inj:
+        c.family = "F-valid-layout"
+    impl_i, mod_i, _ = fam.exec(inj)
+    base_ok = {c.prog: l.startswith("OK ") for c, l in zip(inj, impl_i) if c.style == "canonical"}
+    fam.judge(inj, impl_i, mod_i, [None] * len(inj), "outcome",
+              lambda c, l, t: None if (not base_ok.get(c.prog)) or l.startswith("OK ") else "valid Go rejected in this layout: %s" % l[:60],
+              "directed valid programs in every layout")
 
 
 def check_c03(run, replay):
@@ -849,8 +919,18 @@ def check_c03(run, replay):
     return base(run, replay)
 
 
+def golden_cases():
+    g = json.load(open(os.path.join(vlib.ROOT, "corpus", "golden_shapes.json")))
+    return [pfam.Case(src, "F-golden", expected=sh) for src, sh in sorted(g.items())]
+
+
 def c03_extra(run, fam, gv, gm):
     witness_findings(run, gv, lambda k, w, l: l.startswith("OK ") and "TypePointer" not in l)
+    # reviewed derivations of directed programs (type-parameter list vs array length, nested channel directions,
+    # grouped fields, the constructs the parser reads twice): corpus/golden_shapes.json
+    gc = golden_cases()
+    impl_g, mod_g, _ = fam.exec(gc)
+    fam.judge(gc, impl_g, mod_g, [None] * len(gc), "shape", pfam.oracle_expected_shape, "reviewed derivations of directed programs")
     # derivations are compositional: an expression has the same derivation wherever it stands, and a statement
     # list is the list of its statements' derivations
     ex = [pfam.Case(e, "F-expr-alone") for e in FRAG_EXPRS]
@@ -904,7 +984,7 @@ def check_c13(run, replay):
     fam = Families(run, gv, gm)
     k = budget(run, 3, 8)
     progs, hit, labels = pfam.gen_programs(seed_of(run), budget(run, 300, 1500))
-    styles = ("canonical",) + tuple(("random", "comments", "newlines", "semicolons", "crlf", "dense", "random", "comments")[:k])
+    styles = ("canonical",) + tuple(("random", "comments", "newlines", "semicolons", "crlf", "dense", "random", "comments")[:k + 3])
     cases = pfam.valid_cases(progs, styles)
     impl, mod, toks = fam.exec(cases)
     ref = {}
@@ -919,6 +999,14 @@ def check_c13(run, replay):
                 c.style, pfam.sexpr.first_diff(ref[c.prog], sh) if sh.startswith("(") and ref[c.prog].startswith("(") else (ref[c.prog][:60], sh[:60]))
         return None
     fam.judge(cases, impl, mod, toks, "shape", oracle, "layout never changes the tree")
+    # a newline, blank or comment in every gap of snippets that cover the constructs the parser re-reads
+    inj = pfam.layout_injection_cases()
+    impl_i, mod_i, toks_i = fam.exec(inj)
+    ref_i = {c.prog: pfam.proj_shape(l) for c, l in zip(inj, impl_i) if c.family == "F-layout-base"}
+    fam.judge(inj, impl_i, mod_i, toks_i, "shape",
+              lambda c, l, t: None if pfam.proj_shape(l) == ref_i[c.prog] else
+              "a layout change that keeps the token sequence changes the result: %s vs %s" % (ref_i[c.prog][:50], pfam.proj_shape(l)[:50]),
+              "layout injection in every gap")
     # mutants too: the accept/reject decision and the error token must not depend on layout either
     mcases = []
     for i, (rng, p) in enumerate(progs[: len(progs) // 2]):
@@ -1064,19 +1152,25 @@ FRAG_DECLS = [
     "type T[P any, Q interface{ ~int | string }] map[P]Q", "type A [len(x)]int", "type S []int", "type F = func(a, b int, c ...string) (d error)",
     "func f() {}", "func (r *R[K, V]) m(a int) (b int) { return a }", "func g[T any](x T) T { return x }",
     "type I interface { m(); A | B; ~[]byte; pkg.T }", "var v = map[string][]struct{ a int }{\"k\": {{1}}}", "func h() { L: for { if x { break L } } }",
-    "type T[P *C,] int", "type U[P (C)] int", "var w = func() { switch x := T{}; x.(type) {} }",
+    "type T[P *C,] int", "type U[P (C)] int", "var w = func() { switch x := (T{}); x.(type) {} }",
+    "// doc é\nfunc g() {}", "/* d */\nvar v int", "// a\n// b\ntype T struct {\n\t// f\n\tf int // t\n\tg int\n}",
+    "// spec group\nvar (\n\t// one\n\ta int\n\n\t// two\n\tb int\n)",
 ]
 PREFIXES = [
     "", "var a int\n", "type T[P any] struct{ p P }\n", "type A [N]int\ntype I interface{ A | B }\n",
     "func f() { if x := (T{}); x {} else {}\n for i := range (T{}) {}\n switch y := z.(type) {} }\n", "// doc\nfunc g() {} // trailing\n",
-    "var x = ((((((((((((((((((((a))))))))))))))))))))\n", "type S struct {\n a int // c\n b int\n}\n/* pending */ /* comments */\n",
+    "var x = ((((((((((((((((((((a))))))))))))))))))))\n", "type S struct {\n a int // c\n b int\n}\n/* pending */ /* comments */\n\n",
     "func k() { L: L2: L3: for { select { case <-c: default: } } }\n", "var m = map[K]V{a: {b: {c: d}}}\nconst (X = iota; Y)\n",
     "type G[P interface{ m(x int) }] int\ntype H[P *struct{ a int }] int\n", "func é日本() { 日 := `raw\nstring`; _ = 日 }\n",
+    "var r = `é日本語 \U0001F600\n你好世界你好世界` /* 注释\n\u3000 */\n", "func q() {\n\ts := `你好世界你好世界你好世界\n`\n\t_ = s\n}\n",
+    "/* 你好世界你好世界\n */\n\nvar z int\n",
 ]
 
 
 def shift_positions(text, k):
-    return re.sub(r"@(\d+)", lambda m: "@%d" % (int(m.group(1)) + k), text)
+    text = re.sub(r"@(\d+)", lambda m: "@%d" % (int(m.group(1)) + k), text)
+    # comment offsets inside docs:  #[12://x 20:/*y*/]
+    return re.sub(r"(?<=#\[)(\d+)(?=:/)|(?<= )(\d+)(?=:/[/*])", lambda m: str(int(m.group(0)) + k), text)
 
 
 def state_oracle(c, line, tl):
@@ -1230,8 +1324,8 @@ def check_c15(run, replay):
             return None
         if not line.startswith("OK "):
             return "declaration accepted alone is rejected after other declarations: %s" % line[:80]
-        want = pfam.sexpr.dump(last_decl(pfam.sexpr.parse(shift_positions(pfam.split_ok(a)[0], k))), keep_pos=True)
-        have = pfam.sexpr.dump(last_decl(pfam.tree_of(line)), keep_pos=True)
+        want = pfam.sexpr.dump(last_decl(pfam.sexpr.parse(shift_positions(pfam.split_ok(a)[0], k))), keep_pos=True, keep_docs=True)
+        have = pfam.sexpr.dump(last_decl(pfam.tree_of(line)), keep_pos=True, keep_docs=True)
         if want != have:
             return "declaration after a prefix differs from the same declaration alone (shifted by %d): %s" % (
                 k, pfam.sexpr.first_diff(want, have))
